@@ -39,6 +39,10 @@ def configs(tier):
     if tier == "thorough":
         small = [i for i in items if i[3] == "default" or i[2] == "track"]
         media_lists += [(a, b) for a in small for b in small if not (a[3] != "default" and b[3] != "default")]
+    # three items, two of them of one kind (the balanced policy shares a transport between transceivers of one kind)
+    base = lambda k: (k, "sendrecv", "track", "default")
+    media_lists += [tuple(base(k) for k in kinds) for kinds in (("audio", "video", "video"), ("video", "audio", "audio"),
+                                                                ("audio", "audio", "video"), ("video", "video", "video"))]
     answer_pre = [()]
     for kinds in (("audio",), ("video",), ("audio", "video")):
         for track in (True, False):
@@ -51,6 +55,8 @@ def configs(tier):
             for ob in BUNDLE:
                 for pre in answer_pre:
                     if tier == "quick" and len(pre) == 2 and (len(media) == 0 or media[0][3] != "default"):
+                        continue
+                    if len(media) == 3 and len(pre) == 2:
                         continue
                     for adc in (False, True):
                         for ab in BUNDLE:
@@ -207,6 +213,19 @@ def check_connected(w, a, b, chans, received, round_tag):
             out.append((clause, "%s connectionState=%s iceConnectionState=%s (%s)" % (name, pc.connectionState, pc.iceConnectionState, round_tag)))
     if out:
         return out
+    # every negotiated m-section sits on a transport that is connected (media of that section can flow)
+    for name, pc in (("offerer", a), ("answerer", b)):
+        for t in pc.getTransceivers():
+            if t.mid is None:
+                continue
+            for what, tr in (("sender", t.sender.transport), ("receiver", t.receiver.transport)):
+                if tr.state != "connected" or tr.transport.state != "completed":
+                    out.append(("connect/section-transport", "%s: mid %s (%s) %s is on a transport in state %s / ICE %s (%s)" % (
+                        name, t.mid, t.kind, what, tr.state, tr.transport.state, round_tag)))
+        if pc.sctp is not None and app and (pc.sctp.transport.state != "connected" or pc.sctp.state != "connected"):
+            out.append(("connect/section-transport", "%s: SCTP transport %s on DTLS %s (%s)" % (name, pc.sctp.state, pc.sctp.transport.state, round_tag)))
+    if out:
+        return out[:2]
     if app:
         live = []
         for key, ch in chans.items():
@@ -332,7 +351,7 @@ def run(tier, seed):
     total = pmap("props.c03", "task", [(tier, s, ns) for s in range(ns)], seed=seed)
     return result(
         PID, total,
-        rule="full product: offerer media = none | one item (thorough: also two) of kind {audio,video} x direction {4} x added by "
+        rule="full product: offerer media = none | one item (thorough: also two; both tiers: four three-item lists with two items of one kind) of kind {audio,video} x direction {4} x added by "
              "{addTrack, addTransceiver} (codec preferences {one codec, one codec + RTX, two codecs reversed} on sendrecv items) x "
              "data channel {no,yes} x bundlePolicy {3}; answerer pre-created transceivers {none, audio, video, audio+video} x "
              "{with, without track} x data channel {no,yes} x bundlePolicy {3}; empty offers excluded; follow-up rounds {offerer "
